@@ -73,6 +73,7 @@ void x___cxa_pure_virtual(void) { VF_FAIL("pure virtual"); }
 void x___clang_call_terminate(P e) { VF_FAIL("terminate (noexcept violated)"); }
 void x__ZSt20__throw_system_errori(uint32_t e) { VF_FAIL("system_error"); }
 void x__ZSt17__throw_bad_allocv(void) { VF_FAIL("bad_alloc"); }
+void x__ZSt28__throw_bad_array_new_lengthv(void) { VF_FAIL("bad_array_new_length"); }
 void x__ZSt20__throw_length_errorPKc(P m) { VF_FAIL("length_error"); }
 void x__ZSt25__throw_bad_function_callv(void) { VF_FAIL("bad_function_call"); }
 void x__ZSt24__throw_out_of_range_fmtPKcz(P m) { VF_FAIL("out_of_range"); }
@@ -98,9 +99,16 @@ static unsigned char std_exception_what[] = "std::exception";
 P x__ZNKSt9exception4whatEv(P a0) { return std_exception_what; }
 /* ---- the one global recursive mutex */
 void x__ZNSt15recursive_mutexC2Ev(P a0) {}
-void x__ZNSt15recursive_mutex4lockEv(P a0) { ++__vf_lock_depth; }
 void x__ZNSt15recursive_mutex6unlockEv(P a0) { if (__vf_lock_depth <= 0) VF_FAIL("unlock of unlocked mutex"); --__vf_lock_depth; }
+#ifdef VF_SCHED
+/* schedule points: the harness' verif_on_acquire() runs whenever the mutex is about to be taken at depth 0 (C12/sched.cpp) */
+void f_verif_on_acquire(void);
+uint32_t x_pthread_mutex_lock(P m) { if (__vf_lock_depth == 0) f_verif_on_acquire(); ++__vf_lock_depth; return 0; }
+void x__ZNSt15recursive_mutex4lockEv(P a0) { if (__vf_lock_depth == 0) f_verif_on_acquire(); ++__vf_lock_depth; }
+#else
+void x__ZNSt15recursive_mutex4lockEv(P a0) { ++__vf_lock_depth; }
 uint32_t x_pthread_mutex_lock(P m) { ++__vf_lock_depth; return 0; }
+#endif
 uint32_t x_pthread_mutex_unlock(P m) { if (__vf_lock_depth <= 0) VF_FAIL("unlock of unlocked mutex"); --__vf_lock_depth; return 0; }
 uint32_t x___pthread_key_create(P a, P b) { return 0; }
 
